@@ -40,7 +40,7 @@ try:
         print("PATCH DOES NOT APPLY on current HEAD:", ap.stderr[-500:])
         raise SystemExit(2)
     sh(f"git -C {wt} diff > {evd}/patch.rebased.diff")
-    t = sh(f"cd {wt} && /venv/bin/python -m pytest -q -p no:cacheprovider --no-cov --timeout=900 -q --deselect tests/test_resource.py::test_main_thread_resource_computation_time 2>&1 | grep -E ' passed| failed| error' | tail -1", env=env)
+    t = sh(f"cd {wt} && /venv/bin/python -m pytest -q -p no:cacheprovider --no-cov --timeout=900 --deselect tests/test_resource.py::test_main_thread_resource_computation_time 2>&1 | grep -E ' passed| failed| error' | tail -1", env=env)
     meta["suite_tail"] = t.stdout.strip().splitlines()[-1] if t.stdout.strip() else ""
     suite_ok = " passed" in meta["suite_tail"] and "failed" not in meta["suite_tail"] and "error" not in meta["suite_tail"]
     d1 = sh(f"cd {wt} && timeout 300 /venv/bin/python {demo}", env=env)
